@@ -1,5 +1,7 @@
 mod common;
 mod c12;
+mod c13;
+mod oracle;
 
 use common::*;
 
@@ -56,6 +58,7 @@ fn main() {
     std::panic::set_hook(Box::new(|_| {}));
     let report = match prop.as_str() {
         "C12" => c12::run(&o),
+        "C13" => c13::run(&o),
         _ => {
             eprintln!("unknown property {prop}");
             std::process::exit(2);
